@@ -31,7 +31,9 @@ COMMON_ASSUMPTIONS = [
 
 
 def lean_props_for(pid: str) -> List[str]:
-    return [f'HailVerif.Props.{pid}'] if os.path.exists(os.path.join(LEAN, 'HailVerif', 'Props', f'{pid}.lean')) else []
+    own = [f'HailVerif.Props.{pid}'] if os.path.exists(os.path.join(LEAN, 'HailVerif', 'Props', f'{pid}.lean')) else []
+    # the translator tie of the procedure guards (Generated/ProcGuards.lean = model guards) is an obligation of every E1 property
+    return own + ['HailVerif.Props.E1Tie']
 
 
 class RunResult:
@@ -73,12 +75,13 @@ class E1Prop(Prop):
 
     # -- T tie of the generated trigger bodies the model imports ------------------------------------------
     def generate(self, repo):
-        from ..extract import jobs_trigger
+        from ..extract import jobs_trigger, proc_guards
         from ..props import c03
         notes = []
         r = jobs_trigger.generate(repo)
         notes += r if isinstance(r, list) else ([r] if r else [])
         notes += c03.PROP.generate(repo) or []
+        notes += proc_guards.generate(repo) or []
         return notes
 
     def setup(self, repo):
